@@ -87,8 +87,10 @@ def is_resource_modified(
             # "Origin server MUST use the strong comparison function when
             # comparing entity-tags for If-Match"
             if_match = parse_etags(http_if_match)
-            if if_match:
-                unmodified = not if_match.contains(etag)
+            if if_match and not if_match.contains(etag):
+                # The precondition failed. An If-Match that admits the etag
+                # leaves the result of the other validators alone.
+                unmodified = True
 
     return not unmodified
 
